@@ -161,7 +161,8 @@ class Oracle:
 
 
 # names that the path grammar rejects anyway: telling the handler to ignore them (a documented option) changes nothing
-IGNORE_NONFINAL = [r".*/tmp\.[^/]*$", r".*\.bak$", r".*/\.[^/]*$"]
+# (hidden names are NOT in this list: ".tmp@1700000000.000.h5" is a legal data file name - any prefix before "@" is)
+IGNORE_NONFINAL = [r".*/tmp\.[^/]*$", r".*\.bak$"]
 
 
 def make_handler(flags, win, log, ignore=None):
